@@ -1,5 +1,5 @@
 (* C04 — Middleware runs in global -> group -> route -> handler onion order. Property theorems only. *)
-From Rux Require Import Base Writer Chain ChainFacts ChainMore Dispatch Reg RegFacts.
+From Rux Require Import Base Str Norm Writer Chain ChainFacts ChainMore Dispatch Reg RegFacts Table TableFacts Sys SysFacts.
 Open Scope Z_scope.
 
 (* the chain the dispatcher assembles: global middleware as registered at request time, then the
@@ -60,6 +60,55 @@ Definition k2_x0 : xctx := p_x fresh_ctx.
 Theorem C04_next_twice_refuted : exists c, mrun 400 (init xctx eff k2_chain k2_x0) = Panicked PIndex c.
 Proof. eexists. vm_compute. reflexivity. Qed.
 
+(* ---------- end to end: registration program -> route table -> lookup -> dispatch (Sys.v) ---------- *)
+(* whatever route the lookup of the router built from a registration program selects, the chain that runs is: the global
+   middleware (top-level Use, in order), the middleware of the route as registered (enclosing groups outermost first, then
+   the route's own), the main handler *)
+Theorem C04_chain_of_lookup : forall progs hooks s m p rid ps r is_opt x,
+  fst (quick_match (s_rt s) m p) = QFound rid ps -> nth_error (s_routes s) rid = Some r ->
+  sys_target progs s (fst (quick_match (s_rt s) m p)) p = Some (route_target progs r (opt_params ps) p) /\
+  fst (assemble (sys_cfg progs hooks s) is_opt (route_target progs r (opt_params ps) p) x) =
+    map progs (s_globals s) ++ map progs (r_handlers r) ++ [progs (r_main r)].
+Proof. exact sys_chain_found. Qed.
+Theorem C04_chain_of_not_found : forall progs hooks s m p is_opt x,
+  fst (quick_match (s_rt s) m p) = QNotFound ->
+  exists t, sys_target progs s (fst (quick_match (s_rt s) m p)) p = Some t /\
+  fst (assemble (sys_cfg progs hooks s) is_opt t x) =
+    map progs (s_globals s) ++ (match s_noroute s with [] => [default_404] | hs => map progs hs end).
+Proof. exact sys_chain_not_found. Qed.
+Theorem C04_chain_of_not_allowed : forall progs hooks s m p al is_opt x,
+  fst (quick_match (s_rt s) m p) = QNotAllowed al ->
+  exists t, sys_target progs s (fst (quick_match (s_rt s) m p)) p = Some t /\
+  fst (assemble (sys_cfg progs hooks s) is_opt t x) =
+    map progs (s_globals s) ++ (match s_noallowed s with [] => [default_405 is_opt al] | hs => map progs hs end).
+Proof. exact sys_chain_not_allowed. Qed.
+
+(* the dispatcher's fuel is always enough for well-behaved chains: no OutOfFuel hypothesis *)
+Theorem C04_dispatch_onion : forall cfg o t x0 (ws : list (wb eff)),
+  on_error cfg = None -> fst (assemble cfg o t x0) = map (prog eff) ws -> Z.of_nat (List.length ws) <= 63 ->
+  handle_request cfg o t x0 =
+    Done (final_commit (apply_all xctx eff apply_eff (onion eff ws) (snd (assemble cfg o t x0)))) (seq 0 (List.length ws)).
+Proof. exact handle_request_onion. Qed.
+
+(* everything read off the program text: for a program of static routes that registration accepts, a request whose
+   normalised path and method select route r (the last registration of that key), after ANY earlier requests, runs
+   global (Use order) -> groups (outermost first) -> route -> main in onion order, each handler exactly once, and the
+   response is committed *)
+Theorem C04_end_to_end : forall progs wbs sc pooled reqs o ss s m p k rid r, sys_build o ss = Ok s ->
+  forallb (fun r => is_fixed_path (r_path r)) (den_block (o_strict o) [] [] ss) = true ->
+  o_intercept o = [] -> no_slash m ->
+  format_path (o_strict o) p = Ok k ->
+  static_select (den_block (o_strict o) [] [] ss) m k = Some rid ->
+  nth_error (den_block (o_strict o) [] [] ss) rid = Some r ->
+  let ids := den_globals ss ++ r_handlers r ++ [r_main r] in
+  wb_table progs wbs ids ->
+  (List.length ids <= 63)%nat ->
+  let ws := map wbs ids in
+  fst (sys_serve progs (None, None) (sys_after progs (None, None) s reqs sc pooled) m p sc pooled) =
+    Some (Done (final_commit (apply_all xctx eff apply_eff (onion eff ws) (route_x1 r [] p sc))) (seq 0 (List.length ws))).
+Proof. exact sys_static_onion. Qed.
+
+
 Print Assumptions C04_chain_route.
 Print Assumptions C04_chain_not_found.
 Print Assumptions C04_chain_not_allowed.
@@ -70,3 +119,8 @@ Print Assumptions C04_no_cursor_crash.
 Print Assumptions C04_next_many_each_once.
 Print Assumptions C04_next_many_no_crash.
 Print Assumptions C04_next_twice_refuted.
+Print Assumptions C04_chain_of_lookup.
+Print Assumptions C04_chain_of_not_found.
+Print Assumptions C04_chain_of_not_allowed.
+Print Assumptions C04_dispatch_onion.
+Print Assumptions C04_end_to_end.
